@@ -138,6 +138,45 @@ func ZZ_C17Col(shape int) {
 				verifhook.Assert(verifhook.Eq((*big.Int)(c.Data[k].ID), pages[i-1][k]), "C17 following previous yields other items than the page before")
 			}
 		}
+		// the page reached backwards continues like the same page reached forwards:
+		// its next leads to the page the walk came from, its previous one page further back
+		verifhook.Assert(c.HasMore && c.Next != "", "C17 a page reached through previous has no next although later items exist")
+		if c.Next != "" {
+			nq, err := zzDecodeCol(c.Next)
+			verifhook.Assert(err == nil, "C17 the next cursor of a page reached through previous is not accepted back")
+			if err == nil {
+				fwd, err := UsingColumn[zzFilters, zzRow](context.Background(), zzTable(ids), *nq)
+				verifhook.Assert(err == nil, "C17 page query fails")
+				if err == nil {
+					verifhook.Assert(len(fwd.Data) == len(pages[i]), "C17 previous then next does not come back to the same page")
+					if len(fwd.Data) == len(pages[i]) {
+						for k := range fwd.Data {
+							verifhook.Assert(verifhook.Eq((*big.Int)(fwd.Data[k].ID), pages[i][k]), "C17 previous then next yields other items than the page the walk came from")
+						}
+					}
+				}
+			}
+		}
+		if i-1 >= 1 {
+			verifhook.Assert(c.Previous != "", "C17 a page reached through previous has no previous although earlier items exist")
+			if c.Previous != "" {
+				bq, err := zzDecodeCol(c.Previous)
+				verifhook.Assert(err == nil, "C17 the previous cursor of a page reached through previous is not accepted back")
+				if err == nil {
+					back, err := UsingColumn[zzFilters, zzRow](context.Background(), zzTable(ids), *bq)
+					verifhook.Assert(err == nil, "C17 page query fails")
+					if err == nil && len(back.Data) == len(pages[i-2]) {
+						for k := range back.Data {
+							verifhook.Assert(verifhook.Eq((*big.Int)(back.Data[k].ID), pages[i-2][k]), "C17 previous twice yields other items than the page two before")
+						}
+					} else if err == nil {
+						verifhook.Assert(false, "C17 previous twice does not yield the page two before")
+					}
+				}
+			}
+		} else {
+			verifhook.Assert(c.Previous == "", "C17 the first page reached through previous offers a previous cursor")
+		}
 	}
 	verifhook.Canary()
 }
